@@ -209,6 +209,8 @@ enum ChildEnd {
     Hang(u64),
     /// died without a result; last marked case (mark mode) and a description of the death
     Died(Option<u64>, String),
+    /// killed by the driver because the whole range outlived its wall budget (slow host)
+    Budget,
 }
 
 fn spawn_range(id: &str, tier: &str, from: u64, to: u64, mark: bool, budget: Duration) -> ChildEnd {
@@ -283,7 +285,9 @@ fn spawn_range(id: &str, tier: &str, from: u64, to: u64, mark: bool, budget: Dur
     match (status, res) {
         (Some(st), Some(r)) if st.success() => ChildEnd::Done(r),
         (Some(st), _) => ChildEnd::Died(last_mark, format!("worker ended with {}{} {}", st, phase, err)),
-        (None, _) => ChildEnd::Died(last_mark, format!("worker exceeded its range budget of {:?} and was killed {}", budget, err)),
+        // the driver itself killed the worker because the whole range took longer than its budget
+        // (slow host): that says nothing about the case in flight
+        (None, _) => ChildEnd::Budget,
     }
 }
 
@@ -306,6 +310,19 @@ fn run_range(space: &dyn Space, id: &str, tier: &str, from: u64, to: u64) -> Chu
         match spawn_range(id, tier, from, to, mark, budget) {
             ChildEnd::Done(r) => {
                 acc.merge(r);
+                return acc;
+            }
+            ChildEnd::Budget => {
+                // not a verdict: redo the range in halves, each with a budget of its own (the per-case
+                // guard inside the worker is what decides "hang")
+                acc.count("range_budget_overruns", 1);
+                if to - from <= 1 {
+                    acc.machinery.push(format!("range {}..{}: a single case outlived the range budget without tripping its own deadline", from, to));
+                    return acc;
+                }
+                let mid = from + (to - from) / 2;
+                acc.merge(run_range(space, id, tier, from, mid));
+                acc.merge(run_range(space, id, tier, mid, to));
                 return acc;
             }
             ChildEnd::Hang(c) if c >= from && c < to => {
